@@ -1,17 +1,7 @@
-import GdVerif.Run.Valve
+import GdVerif.Run.Games
 import GdVerif.Proto.Battalion
 namespace Gd.Run
 open Gd Gd.Battalion
-
-def showGamePlayer (p : Battalion.Player) : String :=
-  "(" ++ String.intercalate ";" [showStr p.name, toString p.score, toString p.duration] ++ ")"
-
-def showGameResponse (r : Battalion.GameResponse) : String :=
-  "G{" ++ String.intercalate ";" [toString r.protocol, showStr r.name, showStr r.map, showStr r.game, toString r.appid,
-    toString r.playersOnline, showList showGamePlayer r.playersDetails, toString r.playersMaximum,
-    toString r.playersBots, showServerType r.serverType, showBool r.hasPassword, showBool r.vacSecured,
-    showStr r.version, showOpt showNat r.port, showOpt showNat r.steamId, showOpt showNat r.tvPort,
-    showOpt showStr r.tvName, showOpt showStr r.keywords, showMap r.rules] ++ "}"
 
 /-- `battalion <port> <retries (the entry point has no timeout settings: unused)> <script> [opts]` -/
 def entryBattalion (args : List String) : String :=
